@@ -1,2 +1,5 @@
-import GrmVerif.Model.Newline
-import GrmVerif.Lemmas.Newline
+import GrmVerif.Extracted
+import GrmVerif.Props.C19
+import GrmVerif.Props.C17
+import GrmVerif.Drive.C19
+import GrmVerif.Drive.C17
